@@ -36,6 +36,19 @@ theorem reachable_run {sys : Sys σ L} {s s' : σ} (hs : Reachable sys s) :
     | none => simp [hst] at h
     | some s1 => simp only [hst] at h; exact ih (Reachable.step hs hst) h
 
+/-- Does the explicit schedule `ls` run from `init` and end in a state satisfying `p`?  (executable; used for witnesses) -/
+def checkRun (sys : Sys σ L) (ls : List L) (p : σ → Bool) : Bool :=
+  match run sys.step sys.init ls with
+  | some s => p s
+  | none => false
+
+theorem checkRun_reachable {sys : Sys σ L} {ls : List L} {p : σ → Bool} (h : checkRun sys ls p = true) :
+    ∃ s, Reachable sys s ∧ p s = true := by
+  unfold checkRun at h
+  cases hr : run sys.step sys.init ls with
+  | none => simp [hr] at h
+  | some s => simp only [hr] at h; exact ⟨s, reachable_run Reachable.init hr, h⟩
+
 /-- Inductive-invariant principle. -/
 theorem invariant {sys : Sys σ L} {P : σ → Prop} (h0 : P sys.init)
     (hstep : ∀ s l s', P s → sys.step s l = some s' → P s') : ∀ s, Reachable sys s → P s := by
